@@ -23,6 +23,7 @@ KINDS = {
     'span.c2{w}': (False, '.c2'), 'li': (False, None), 'p{l1\nl2}': (False, None),
     'p{l1\rl2}': (False, None),          # text lines separated by a lone CR are lines too
     'p{\nl2}': (False, None),             # text that opens with its only line break
+    'p{l1\nl2\nl3}': (False, None),       # three lines: the second line break of a text is a line break too
     '{n: ${0}}': (False, None), 'em{i ${0}}': (False, None),      # text that ends with the field its children replace
     'x[id]': (False, ''), 'x[class=""]': (False, ''),            # a comment trigger without a value: a comment with an empty payload
     'html': (False, None),                                         # in the default output.formatSkip list
